@@ -553,6 +553,11 @@ class BreakStmt:
 
 
 @dataclass
+class ContinueStmt:
+    """Skip to the next iteration of the innermost loop."""
+
+
+@dataclass
 class CatchClause:
     """A ``catch`` clause attached to a :class:`TryStatement`."""
 
